@@ -331,12 +331,16 @@ func init() {
 			{"equal-roots", []string{"- a\n  - x\n", "- a\n  - y\n"}, []int{2, 2}, ""},
 			{"prefix-blocks", []string{"- a\n", "- a\n  - b\n"}, []int{1, 2}, ""},
 			{"merged-siblings", []string{"- a\n  - b\n  - b\n    - c\n", "- d\n"}, []int{3, 1}, ""},
+			{"format-verbs", []string{"- 100%d\n  - a%%b\n  - %s\n", "- {}\n  - %v%!\n"}, []int{3, 2}, ""},
 		}
 		bad := []docT{
 			{"bad-first", []string{"- a\n  -\n", "- c\n  - d\n"}, nil, ""},
 			{"bad-last", []string{"- a\n  - b\n", "- c\n   x\n"}, nil, ""},
 			{"bad-middle", []string{"- a\n", "- c\n  - d\n      - e\n    -\n", "- f\n"}, nil, ""},
 			{"all-bad", []string{"- a\n  -\n", "- c\n  -\n"}, nil, ""},
+			// the only malformation is an over-nested item in a later root, after a root deep enough to offer a stale parent
+			{"jump-second", []string{"- a\n  - b\n    - c\n", "- d\n      - e\n"}, nil, ""},
+			{"jump-third", []string{"- a\n  - b\n    - c\n      - d\n", "- e\n  - f\n", "- g\n        - h\n"}, nil, ""},
 		}
 		special := []docT{
 			{"sharp-roots", []string{"# a\n- b\n", "# c\n- d\n"}, []int{2, 2}, ""},
@@ -379,6 +383,35 @@ func init() {
 			for _, op := range []string{"out-text", "out-json", "walk", "mkdir"} {
 				add(d, op, k1, w2, nil)
 			}
+		}
+		// one worker per stage: every block passes through the same worker (state kept between blocks shows here)
+		w1only := map[string]int{"*": 1}
+		w1gen := map[string]int{"workerGenerateNum": 1, "workerGrowNum": 1, "*": 2}
+		for _, d := range append(append([]docT{}, docs[:3]...), bad...) {
+			for _, op := range []string{"out-text", "walk", "out-json"} {
+				dd := d
+				dd.name = d.name + "/w1"
+				sp := &c10Spec{name: dd.name, op: op, roots: dd.roots, prefix: dd.prefix, lines: dd.lines}
+				out = append(out, c10Scenario(sp, k1, w1only, pols))
+				if op == "out-text" {
+					dd.name = d.name + "/w1gen"
+					sp := &c10Spec{name: dd.name, op: op, roots: dd.roots, prefix: dd.prefix, lines: dd.lines}
+					out = append(out, c10Scenario(sp, k1, w1gen, pols))
+				}
+			}
+		}
+		// roots whose rendering is larger than a typical I/O buffer (4096 bytes): blocks must stay intact
+		{
+			big := func(r string) string {
+				var sb strings.Builder
+				sb.WriteString("- " + r + "\n")
+				for i := 0; i < 150; i++ {
+					fmt.Fprintf(&sb, "  - %s-child-%03d-xxxxxxxxxxxxxxxx\n", r, i)
+				}
+				return sb.String()
+			}
+			d := docT{"big-roots", []string{big("alpha"), big("beta")}, []int{151, 151}, ""}
+			add(d, "out-text", 1, w2, nil)
 		}
 		// mkdir where a root exists beforehand: simple mode creates nothing at all
 		add(docs[0], "mkdir", k1, w2, func(s *c10Spec) { s.name = "two-second-exists"; s.pre = map[string]byte{"c": 'd'} })
